@@ -36,7 +36,7 @@ Definition run1 (o : op) : M :=
   match o with
   | OI lvl s => wi lvl s | OR s => wr s | OL s => wl s
   | OE e => wre e | OEN e => wre_nz e | OEI lvl e s => wie lvl e s
-  | OP e s => fun g => add_map e (cur (w g)) (wr s g)
+  | OP e s => wpk e s
   end.
 Definition replay (l : list op) : M := seqs (map run1 l).
 (* what a run is observed by: the writer (output chunks, literals, counter, position) and the source-map additions *)
@@ -121,7 +121,11 @@ Proof. revert g. induction l1 as [|o r IH]; intros g; [reflexivity|]. unfold rep
 Lemma replay_one o g : replay [o] g = run1 o g.
 Proof. reflexivity. Qed.
 Lemma run1_keeps o g : vid (run1 o g) = vid g /\ fname (run1 o g) = fname g /\ cvar (run1 o g) = cvar g.
-Proof. destruct o; cbn [run1]; try (repeat split; fail). unfold wre_nz. destruct (zero_range e); repeat split. Qed.
+Proof.
+  destruct o; cbn [run1]; try (repeat split; fail).
+  - unfold wre_nz. destruct (zero_range e); repeat split.
+  - unfold wpk. destruct (zero_range e); repeat split.
+Qed.
 Lemma replay_keeps l : forall g, vid (replay l g) = vid g /\ fname (replay l g) = fname g /\ cvar (replay l g) = cvar g.
 Proof.
   induction l as [|o r IH]; intros g; [repeat split|]. change (o :: r) with ([o] ++ r). rewrite replay_app, replay_one.
@@ -143,7 +147,7 @@ Lemma run1_same o a b : same a b -> same (run1 o a) (run1 o b).
 Proof.
   intros H. destruct o; cbn [run1]; try (apply same_upd; exact H); try (apply same_wre; exact H); try (apply same_wie; exact H).
   - unfold wre_nz. destruct (zero_range e); [apply same_upd|apply same_wre]; exact H.
-  - destruct H as [A B]. split; cbn [add_map wr upd w adds]; rewrite ?A, ?B; reflexivity.
+  - unfold wpk. destruct (zero_range e); [apply same_upd; exact H|]. destruct H as [A B]. split; cbn [add_map wr upd w adds]; rewrite ?A, ?B; reflexivity.
 Qed.
 Lemma replay_same l : forall a b, same a b -> same (replay l a) (replay l b).
 Proof.
@@ -450,7 +454,7 @@ Ltac em_hook ::=
   lazymatch goal with
   | |- emits None (write_fnodes _) => apply emits_write_fnodes
   | |- emits None (go_block _) => apply emits_go_block
-  | |- emits ?c (fun g => add_map ?e (cur (w g)) (wr ?s g)) => apply (emits_op c (OP e s)); reflexivity
+  | |- emits ?c (wpk ?e ?s) => apply (emits_op c (OP e s)); reflexivity
   end.
 Lemma emits_gen_all f : emits None (gen_all f).
 Proof. unfold gen_all. em. Qed.
